@@ -35,6 +35,16 @@ Fixpoint tables_nodup (items : list item) : Prop :=
   | ISetVocab _ tbl :: r => NoDup (map snd tbl) /\ tables_nodup r
   end.
 
+(* - every word of every table that is installed fits the receiver's limit (ReplaceVocabUnslicer.valueConstraint =
+     ByteStringConstraint(vocab_word_limit), translated): a longer word is a Violation at the receiver, which then KEEPS ITS OLD
+     TABLE while the sender goes on with the new one -- vocab_switch_long_word_refuted *)
+Fixpoint tables_words_ok (items : list item) : bool :=
+  match items with
+  | [] => true
+  | ITok _ :: r => tables_words_ok r
+  | ISetVocab _ tbl :: r => forallb word_ok (map fst tbl) && tables_words_ok r
+  end.
+
 Lemma list_eqb_refl a : list_eqb a a = true.
 Proof. apply list_eqb_eq. reflexivity. Qed.
 
@@ -45,25 +55,26 @@ Proof.
 Qed.
 
 Lemma setvocab_view fuel cur n tbl rest out :
+  forallb word_ok (map fst tbl) = true ->
   receiver_view fuel tbl rest = Some out ->
   receiver_view (S fuel) cur (setvocab_tokens n tbl ++ rest) = Some (setvocab_tokens n tbl ++ out).
 Proof.
-  intros H. unfold setvocab_tokens.
+  intros WK H. unfold setvocab_tokens.
   change (strs ot_set_vocab) with [TString sv]. cbn [app receiver_view].
   change (hd [] ot_set_vocab) with sv. rewrite list_eqb_refl.
-  rewrite <- app_assoc. cbn [app]. rewrite parse_table_tokens. cbn [app]. rewrite H. reflexivity.
+  rewrite <- app_assoc. cbn [app]. rewrite (parse_table_tokens _ WK). cbn [app]. rewrite H. reflexivity.
 Qed.
 
 Theorem vocab_switch_in_band : forall items cur fuel,
-  NoDup (map snd cur) -> tables_nodup items -> items_ok items = true ->
+  NoDup (map snd cur) -> tables_nodup items -> items_ok items = true -> tables_words_ok items = true ->
   (List.length (sender_wire cur items) <= fuel)%nat ->
   receiver_view fuel cur (sender_wire cur items) = Some (plain_tokens items).
 Proof.
-  induction items as [|it r IH]; intros cur fuel ND TN OK L.
+  induction items as [|it r IH]; intros cur fuel ND TN OK WK L.
   - destruct fuel; reflexivity.
   - destruct it as [t|n tbl].
     + cbn [items_ok] in OK. apply andb_true_iff in OK as [OK OK3]. apply andb_true_iff in OK as [NV OK2].
-      cbn [sender_wire plain_tokens tables_nodup] in *. cbn [List.length] in L.
+      cbn [sender_wire plain_tokens tables_nodup tables_words_ok] in *. cbn [List.length] in L.
       destruct fuel as [|fu]; [lia|].
       assert (IHr : receiver_view fu cur (sender_wire cur r) = Some (plain_tokens r)) by (apply IH; auto; lia).
       destruct t; try discriminate; try (cbn [envocab1 receiver_view devocab1]; rewrite IHr; reflexivity).
@@ -86,17 +97,48 @@ Proof.
            rewrite IHr. reflexivity.
         -- (* OPEN directly followed by a table replacement: cannot be a sender's queue, but harmless *)
            cbn [sender_wire] in *. unfold setvocab_tokens in *. cbn [app receiver_view devocab1] in *. rewrite IHr. reflexivity.
-    + cbn [sender_wire plain_tokens tables_nodup items_ok] in *. destruct TN as [ND2 TN].
+    + cbn [sender_wire plain_tokens tables_nodup items_ok tables_words_ok] in *. destruct TN as [ND2 TN].
+      apply andb_true_iff in WK as [WK1 WK2].
       rewrite app_length in L. unfold setvocab_tokens in L. cbn [List.length] in L.
       destruct fuel as [|fu]; [lia|].
-      apply setvocab_view. apply IH; auto. lia.
+      apply setvocab_view; [exact WK1|]. apply IH; auto. lia.
 Qed.
 
 (* non-vacuity: a list sent, the table replaced by one with a gap (a word listed twice), the same list sent again *)
 Example ex_switch :
   let w := [TOpen 0; TString [108; 105; 115; 116]; TInt 1; TClose 0] in
   let items := map ITok w ++ [ISetVocab 1 [([108; 105; 115; 116], 1); ([100], 2)]] ++ map ITok [TOpen 2; TString [108; 105; 115; 116]; TClose 2] in
-  items_ok items = true /\
+  items_ok items = true /\ tables_words_ok items = true /\
   sender_wire [] items = w ++ setvocab_tokens 1 [([108; 105; 115; 116], 1); ([100], 2)] ++ [TOpen 2; TVocab 1; TClose 2] /\
   receiver_view 20 [] (sender_wire [] items) = Some (plain_tokens items).
 Proof. vm_compute. repeat split; reflexivity. Qed.
+
+(* ------------------------------------------------------------------ a table word over the receiver's limit (FINDING, review 2) *)
+(* table [tuple] in force; [1] sent; setOutgoingVocabulary([b"list", b"x"*101]); [2] sent.  Every other hypothesis of
+   vocab_switch_in_band holds.  The receiver raises a Violation on the 101-byte word, drops the whole set-vocab sequence and
+   KEEPS [tuple]; the sender installs the new table and abbreviates "list" as VOCAB 0, which the receiver expands to "tuple":
+   the list [2] is delivered as the tuple (2,) -- replayed on the code (harness: vocab-switch/word-length family).
+   With a 100-byte word everything is fine. *)
+Definition long_word (k : nat) : list Z := List.repeat 120 k.
+Definition w_tuple : list Z := [116; 117; 112; 108; 101].
+Definition w_list : list Z := [108; 105; 115; 116].
+Definition long_word_items (k : nat) : list item :=
+  map ITok (slice 0 (OList [OInt 1])) ++ [ISetVocab 1 [(w_list, 0); (long_word k, 1)]] ++ map ITok (slice 2 (OList [OInt 2])).
+Theorem vocab_switch_long_word_refuted :
+  let cur := [(w_tuple, 0)] in
+  let items := long_word_items 101 in
+  items_ok items = true /\ tables_words_ok items = false /\
+  receiver_view 100 cur (sender_wire cur items) = None /\
+  (exists toks, receiver_view_v 100 cur (sender_wire cur items) = Some (toks, 1) /\
+     unslice true 0 toks = Some ([(0, {| n_kind := CList; n_items := [VInt 1] |}); (2, {| n_kind := CTuple; n_items := [VInt 2] |})],
+                                 [VPtr 0; VPtr 2])) /\
+  (* inside the guard: a 100-byte word *)
+  tables_words_ok (long_word_items 100) = true /\
+  (exists toks, receiver_view 100 cur (sender_wire cur (long_word_items 100)) = Some toks /\
+     unslice true 0 toks = Some ([(0, {| n_kind := CList; n_items := [VInt 1] |}); (2, {| n_kind := CList; n_items := [VInt 2] |})],
+                                 [VPtr 0; VPtr 2])).
+Proof.
+  cbv zeta. split; [vm_compute; reflexivity|]. split; [vm_compute; reflexivity|]. split; [vm_compute; reflexivity|].
+  split; [eexists; split; vm_compute; reflexivity|]. split; [vm_compute; reflexivity|].
+  eexists; split; vm_compute; reflexivity.
+Qed.
